@@ -14,6 +14,66 @@ static void phase_cb(struct hwloc_topology *t, int phase) { hwv_dump_raw(stdout,
 extern void (*hwloc_verif_insert_cb)(struct hwloc_topology *topology, int when, struct hwloc_obj *root, struct hwloc_obj *obj, struct hwloc_obj *result);
 static void insert_cb(struct hwloc_topology *t, int when, struct hwloc_obj *root, struct hwloc_obj *obj, struct hwloc_obj *result)
 { hwv_dump_insert(stdout, t, when, root, obj, result); }
+
+/* The Linux backend is about to read the CPU topology from sysfs: print what it will see (file contents in hex),
+ * for the model of look_sysfscpu (Topo/LinuxCpu.v).  Same access path as the backend: relative to root_fd. */
+#include <dirent.h>
+#include <fcntl.h>
+extern void (*hwloc_verif_linuxcpu_cb)(struct hwloc_topology *topology, int root_fd, int old_filenames, int arch_s390, int is_amd_with_CU, int is_knl, int want_some_cpu_caches) __attribute__((weak));
+static const char *lc_rel(const char *path, int root_fd) { if (root_fd >= 0) while (*path == '/') path++; return path; }
+static void lc_file(int root_fd, const char *path, const char *tag)
+{
+  /* prints "<tag> <hex of the content>" or nothing when the file cannot be opened or read (the backend treats both alike) */
+  char buf[65536]; ssize_t n, tot = 0; int fd = openat(root_fd, lc_rel(path, root_fd), O_RDONLY);
+  if (fd < 0) return;
+  while (tot < (ssize_t)sizeof(buf) && (n = read(fd, buf + tot, sizeof(buf) - tot)) > 0) tot += n;
+  close(fd);
+  if (tot <= 0) { printf("%s -empty\n", tag); return; }
+  printf("%s ", tag);
+  for (n = 0; n < tot; n++) printf("%02x", (unsigned char)buf[n]);
+  printf("\n");
+}
+static void linuxcpu_cb(struct hwloc_topology *t, int root_fd, int old_filenames, int s390, int amdcu, int knl, int caches)
+{
+  const char *env = getenv("HWLOC_DONT_MERGE_CLUSTER_GROUPS");
+  DIR *dir; struct dirent *de; char path[512], tag[64]; int dfd;
+  static const char *tf_new[] = {"core_cpus", "cluster_cpus", "die_cpus", "package_cpus", "book_siblings", "drawer_siblings", NULL};
+  static const char *tf_old[] = {"thread_siblings", "cluster_cpus", "die_cpus", "core_siblings", "book_siblings", "drawer_siblings", NULL};
+  static const char *tk[] = {"core", "cluster", "die", "pkg", "book", "drawer"};
+  static const char *idf[] = {"core_id", "cluster_id", "die_id", "physical_package_id", "book_id", "drawer_id", NULL};
+  static const char *cf[] = {"shared_cpu_map", "level", "type", "id", "size", "coherency_line_size", "number_of_sets", "physical_line_partition", NULL};
+  static const char *ck[] = {"map", "level", "type", "id", "size", "line", "sets", "lpt"};
+  (void)t;
+  printf("lcpu begin old=%d s390=%d amdcu=%d knl=%d caches=%d dmcg=%d\n", old_filenames, s390, amdcu, knl, caches, env && atoi(env));
+  lc_file(root_fd, "/sys/devices/system/cpu/online", "lcpu online");
+  dfd = openat(root_fd, lc_rel("/sys/devices/system/cpu", root_fd), O_RDONLY | O_DIRECTORY);
+  dir = dfd >= 0 ? fdopendir(dfd) : NULL;
+  if (!dir) { printf("lcpu nodir\nlcpu end\n"); return; }
+  while ((de = readdir(dir)) != NULL) {
+    unsigned long cpu; char *end; int i, j, topo;
+    if (strncmp(de->d_name, "cpu", 3)) continue;
+    cpu = strtoul(de->d_name + 3, &end, 0);
+    if (end == de->d_name + 3) continue;
+    snprintf(path, sizeof(path), "/sys/devices/system/cpu/cpu%lu/topology", cpu);
+    topo = !(faccessat(root_fd, lc_rel(path, root_fd), X_OK, 0) < 0 && errno == ENOENT);
+    printf("lcpu cpu %lu topo=%d\n", cpu, topo);
+    snprintf(path, sizeof(path), "/sys/devices/system/cpu/cpu%lu/online", cpu);
+    snprintf(tag, sizeof(tag), "lcpu f %lu on", cpu); lc_file(root_fd, path, tag);
+    for (i = 0; tf_new[i]; i++) {
+      snprintf(path, sizeof(path), "/sys/devices/system/cpu/cpu%lu/topology/%s", cpu, (old_filenames ? tf_old : tf_new)[i]);
+      snprintf(tag, sizeof(tag), "lcpu f %lu %s", cpu, tk[i]); lc_file(root_fd, path, tag);
+      snprintf(path, sizeof(path), "/sys/devices/system/cpu/cpu%lu/topology/%s", cpu, idf[i]);
+      snprintf(tag, sizeof(tag), "lcpu f %lu %s_id", cpu, tk[i]); lc_file(root_fd, path, tag);
+    }
+    for (j = 0; j < 10; j++)
+      for (i = 0; cf[i]; i++) {
+        snprintf(path, sizeof(path), "/sys/devices/system/cpu/cpu%lu/cache/index%d/%s", cpu, j, cf[i]);
+        snprintf(tag, sizeof(tag), "lcpu c %lu %d %s", cpu, j, ck[i]); lc_file(root_fd, path, tag);
+      }
+  }
+  closedir(dir);
+  printf("lcpu end\n");
+}
 #endif
 
 int main(void)
@@ -33,6 +93,7 @@ int main(void)
 #ifdef HWLOC_VERIF
       hwloc_verif_phase_cb = atoi(line + 7) ? phase_cb : NULL;
       hwloc_verif_insert_cb = atoi(line + 7) >= 2 ? insert_cb : NULL;   /* phases 2: also trace every insertion by cpuset */
+      if (&hwloc_verif_linuxcpu_cb) hwloc_verif_linuxcpu_cb = atoi(line + 7) >= 2 ? linuxcpu_cb : NULL;   /* hook absent in older trees */
       printf("phases rc=0\n");
 #else
       printf("phases rc=-1\n");
